@@ -250,13 +250,21 @@ def function(draw, lang, fid, name, cls=None, kind="func", max_params=3, for_for
 
 
 @st.composite
-def library(draw, lang=None, nfunc=(4, 10), for_fortran=True, with_class=None, rows=None, results=None, types=None):
+def library(draw, lang=None, nfunc=(4, 10), for_fortran=True, with_class=None, rows=None, results=None, types=None,
+            ovl_sigs=None, with_overloads=None):
     lang = lang or draw(st.sampled_from(["c++", "c++", "c"]))
     lib = dict(name="XLib", language=lang, funcs=[], classes=[], cheader="xlib.hpp" if lang == "c++" else "xlib.h")
     n = draw(st.integers(*nfunc))
     fid = 1
     for i in range(n):
         lib["funcs"].append(draw(function(lang, fid, "func%d" % fid, for_fortran=for_fortran, allowed=rows, results=results, types=types)))
+        fid += 1
+    wo = (lang == "c++") and (draw(st.booleans()) if with_overloads is None else with_overloads)
+    if wo:
+        grp = draw(overload_group(lang, fid, "ovlFunc", ovl_sigs or OVL_SIGS, for_fortran))
+        lib["funcs"] += grp
+        fid += len(grp)
+        lib["funcs"].append(draw(default_func(lang, fid, "dfltFunc", for_fortran)))
         fid += 1
     wc = (lang == "c++") and (draw(st.booleans()) if with_class is None else with_class)
     if wc:
@@ -265,6 +273,60 @@ def library(draw, lang=None, nfunc=(4, 10), for_fortran=True, with_class=None, r
 
 
 SIMPLE_ROWS = ["N1", "B1", "S1in", "S3in", "N2out", "N2in"]
+
+# overload signatures: pairwise distinguishable by Fortran (type/kind/rank) and, in the LUA list,
+# by (count, Lua type)
+OVL_SIGS = [[], ["int"], ["double"], ["string"], ["int", "int"], ["bool"], ["int", "string"]]
+OVL_SIGS_LUA = [[], ["int"], ["string"], ["int", "int"], ["bool"], ["int", "string"], ["string", "bool"]]
+
+
+def _sig_param(i, t):
+    n = "a%d" % i
+    if t == "string":
+        return P(n, "S3in", "string", "const std::string &%s" % n)
+    if t == "bool":
+        return P(n, "B1", "bool", "bool %s" % n)
+    return P(n, "N1", t, "%s %s" % (t, n))
+
+
+@st.composite
+def overload_group(draw, lang, fid, name, sigs, for_fortran=True):
+    """tutorial.rst 'Overloaded Functions' / 'Function suffix'."""
+    n = draw(st.integers(2, 3))
+    chosen = draw(st.lists(st.sampled_from(sigs), min_size=n, max_size=n, unique_by=lambda x: tuple(x)))
+    explicit = draw(st.booleans())
+    funcs = []
+    # a Fortran generic interface holds either functions or subroutines: one result style per set
+    ret = draw(st.sampled_from([None, dict(row="N", T="int", ctype="int", attrs="")]))
+    for i, sig in enumerate(chosen):
+        f = dict(name=name, fid=fid + i, cls=None, kind="func", params=[_sig_param(j, t) for j, t in enumerate(sig)],
+                 ret=(dict(ret) if ret else None), const=False,
+                 suffix=("_v%d" % i) if explicit else None, calls=[], overload_index=i, noverload=n)
+        f["calls"] = [draw(call_vector(f, for_fortran)) for _ in range(2)]
+        funcs.append(f)
+    return funcs
+
+
+@st.composite
+def default_func(draw, lang, fid, name, for_fortran=True):
+    """tutorial.rst 'Optional arguments': trailing default values."""
+    params = [P("a0", "N1", "double", "double a0")]
+    nd = draw(st.integers(1, 2))
+    # (the declaration parser accepts a single literal or identifier as default value, no sign)
+    choices = [("int", "3", 3), ("bool", "true", True), ("double", "1.5", 1.5), ("long", "7", 7), ("bool", "false", False)]
+    for j in range(nd):
+        T, text, val = draw(st.sampled_from(choices))
+        p = P("d%d" % j, "N1" if T != "bool" else "B1", T, "%s d%d" % (T, j))
+        p["default"] = text
+        p["default_value"] = val
+        params.append(p)
+    f = dict(name=name, fid=fid, cls=None, kind="func", params=params, ret=dict(row="N", T="double", ctype="double", attrs=""),
+             const=False, suffix=None, calls=[], ndefault=nd)
+    for nargs in range(1, len(params) + 1):
+        c = draw(call_vector(f, for_fortran))
+        c["nargs"] = nargs
+        f["calls"].append(c)
+    return f
 
 
 @st.composite
@@ -411,7 +473,9 @@ def expected_call(f, call, site, front, serial_of=None, op=None):
     ins, outs = call["inputs"], call["outputs"]
     for idx, p in enumerate(f["params"]):
         row, T, nm = p["row"], p["T"], p["name"]
-        if row in ("K1ptr", "K1ref"):
+        if "nargs" in call and idx >= call["nargs"]:
+            out.append("A %d %s" % (idx, vtext(T, p["default_value"])))      # supplied by the library's own default
+        elif row in ("K1ptr", "K1ref"):
             out.append("A %d o %d" % (idx, serial_of[op["objs"][nm]]))
         elif p.get("implied_of"):
             out.append("A %d i %d" % (idx, len(ins[p["implied_of"]])))     # implied = size of the named array
@@ -790,7 +854,7 @@ extern "C" void vf_live_report(void) { printf("LIVE %d\\n", vf_live_count); fflu
         impl.append('extern "C" void vf_oo_%s(int slot, void *p) { if (slot < 0) printf("O rv o %%d\\n", ((%s *) p)->vf_serial); else printf("O %%d o %%d\\n", slot, ((%s *) p)->vf_serial); fflush(stdout); }' % (nm, nm, nm))
     for f in lib["funcs"]:
         proto = decl_text_plain(f)
-        hdr.append(proto + ";")
+        hdr.append(decl_text_plain(f, defaults=True) + ";")
         impl.append("%s\n{\n%s\n}" % (proto, "\n".join(body_lines(f))))
     hdr.append("#endif")
     ext = "cpp" if cxx else "c"
@@ -798,8 +862,8 @@ extern "C" void vf_live_report(void) { printf("LIVE %d\\n", vf_live_count); fflu
             "vf_support.h": SUPPORT_H, "vf_support.c": SUPPORT_C}
 
 
-def decl_text_plain(f):
-    ps = [p["ctype"] for p in f["params"]]
+def decl_text_plain(f, defaults=False):
+    ps = [p["ctype"] + ((" = " + p["default"]) if defaults and p.get("default") is not None else "") for p in f["params"]]
     r = f["ret"]
     return "%s %s(%s)%s" % (r["ctype"] if r else "void", f["name"], ", ".join(ps) if ps else ("void" if True else ""),
                             " const" if f.get("const") else "")
